@@ -225,11 +225,12 @@ func (p *wkbParser) parseLineString(ctype CoordinatesType) (LineString, error) {
 	if err != nil {
 		return LineString{}, err
 	}
-	floats := make([]float64, int(n)*ctype.Dimension())
-
-	if len(p.body) < 8*len(floats) {
+	// Check that the input is long enough to hold n points *before*
+	// allocating, so that a bogus count can't cause a huge allocation.
+	if uint64(len(p.body)) < 8*uint64(n)*uint64(ctype.Dimension()) {
 		return LineString{}, wkbSyntaxError{"unexpected EOF"}
 	}
+	floats := make([]float64, int(n)*ctype.Dimension())
 
 	var seqData []byte
 	if p.no {
@@ -266,9 +267,22 @@ func flipEndianessStride8(p []byte) {
 	}
 }
 
+// checkCount returns an error if the remaining input is too short to hold n
+// elements that are each encoded using at least minElementSize bytes. It's
+// used to reject bogus element counts before allocating memory for them.
+func (p *wkbParser) checkCount(n uint32, minElementSize int) error {
+	if uint64(len(p.body)) < uint64(n)*uint64(minElementSize) {
+		return wkbSyntaxError{"unexpected EOF"}
+	}
+	return nil
+}
+
 func (p *wkbParser) parsePolygon(ctype CoordinatesType) (Polygon, error) {
 	n, err := p.parseUint32()
 	if err != nil {
+		return Polygon{}, err
+	}
+	if err := p.checkCount(n, 4); err != nil { // each ring has a 4 byte count
 		return Polygon{}, err
 	}
 	if n == 0 {
@@ -287,6 +301,9 @@ func (p *wkbParser) parsePolygon(ctype CoordinatesType) (Polygon, error) {
 func (p *wkbParser) parseMultiPoint(ctype CoordinatesType) (MultiPoint, error) {
 	n, err := p.parseUint32()
 	if err != nil {
+		return MultiPoint{}, err
+	}
+	if err := p.checkCount(n, 5); err != nil { // each element has a byte order and type
 		return MultiPoint{}, err
 	}
 	if n == 0 {
@@ -311,6 +328,9 @@ func (p *wkbParser) parseMultiLineString(ctype CoordinatesType) (MultiLineString
 	if err != nil {
 		return MultiLineString{}, err
 	}
+	if err := p.checkCount(n, 5); err != nil { // each element has a byte order and type
+		return MultiLineString{}, err
+	}
 	if n == 0 {
 		return MultiLineString{}.ForceCoordinatesType(ctype), nil
 	}
@@ -333,6 +353,9 @@ func (p *wkbParser) parseMultiPolygon(ctype CoordinatesType) (MultiPolygon, erro
 	if err != nil {
 		return MultiPolygon{}, err
 	}
+	if err := p.checkCount(n, 5); err != nil { // each element has a byte order and type
+		return MultiPolygon{}, err
+	}
 	if n == 0 {
 		return MultiPolygon{}.ForceCoordinatesType(ctype), nil
 	}
@@ -353,6 +376,9 @@ func (p *wkbParser) parseMultiPolygon(ctype CoordinatesType) (MultiPolygon, erro
 func (p *wkbParser) parseGeometryCollection(ctype CoordinatesType) (GeometryCollection, error) {
 	n, err := p.parseUint32()
 	if err != nil {
+		return GeometryCollection{}, err
+	}
+	if err := p.checkCount(n, 5); err != nil { // each element has a byte order and type
 		return GeometryCollection{}, err
 	}
 	if n == 0 {
